@@ -313,6 +313,12 @@ class BroydenSolver(NonlinearSolver):
         self._converge_failures = 0
         self._computed_jacobians = 0
 
+        # A new solve starts from a fresh inverse Jacobian: the update vectors left over from the
+        # previous solve belong to a different point (and are complex after a complex step).
+        # Under complex step the inverse Jacobian of the preceding real solve is reused.
+        if not system.under_complex_step:
+            self._recompute_jacobian = True
+
         # Execute guess_nonlinear if specified and
         # we have not restarted from a saved point
         if not self._restarted and system._has_guess:
